@@ -1,7 +1,7 @@
 //! C16 correspondence harness: the real `reactive_stores` (Store, Subfield, AtIndex, KeyedSubfield, AtKeyed,
 //! Patch) + `reactive_graph` effects from /repo's working tree, driven by `hx_common::sched`.
 //!
-//! (/repo after fix-c16-1 `FieldKeys::new`, fix-c16-2 `AtIndex::writer`, fix-c16-3 `track_field`.)
+//! (/repo after fix-c16-1 `FieldKeys::new`, fix-c16-2 `AtIndex::writer`, fix-c16-3 `track_field`, fix-c16-4 `iter_unkeyed`.)
 //!
 //! Store shapes come from one fixed family of `#[derive(Store, Patch)]` types:
 //!   Root { a: u32, mid: Mid, opt: Option<Leaf>, list: Vec<Leaf>, #[store(key: u32 = |r| r.id)] rows: Vec<Row>,
@@ -17,8 +17,14 @@
 //! Op grammar (one line each; every line answers `<observable> ## <verdict>`):
 //!   case <n>
 //!   init <Root value>
-//!   eff <chain> | effi <kchain>      one `Effect` reading the field (`effi`: by iterating the keyed field)
-//!   imm <chain> | immi <kchain>      the same as an `ImmediateEffect` (runs inside `notify`: wake order)
+//!   eff <chain> [how]                one `Effect` reading the field; how = get (default) | read | with | track
+//!                                    (`.try_get()` / `.try_read()` / `.try_with(..)` / `.track()` + `try_read_untracked()`),
+//!                                    map | invert (`OptionStoreExt` on the Option field on the way, `.get()` inside),
+//!                                    iter (`for` over a keyed field / `.iter_unkeyed()`, every item `.get()`),
+//!                                    field<k> | arc<k> (the accessor after k steps is converted to a `Field` /
+//!                                    `ArcField` handle when the reader is created; the rest of the chain goes through it)
+//!   imm <chain> [how]                the same as an `ImmediateEffect` (runs inside `notify`: wake order)
+//!   effi | immi <kchain>             = `eff | imm <kchain> iter`
 //!   set|upd|wr <chain> <value>       `.set(v)` / `.update(|x| *x = v)` / `*f.write() = v`
 //!   patch <chain> <value>            `Patch::patch`
 //!   kpush <kchain> <row> | kremove <kchain> <i> | kswap <kchain> <i> <j> | krev <kchain>   through `.write()`
@@ -28,7 +34,8 @@
 //! Oracle (independent of the model; keyed items addressed by key on a plain snapshot of the store):
 //!  * after a write exactly the readers whose chain is prefix-related to a written field are woken (Effect:
 //!    appear in the ready list; ImmediateEffect: appear in the run log); for `patch` the written fields are
-//!    the fields that differ; readers of a key that has never been in the collection are not judged;
+//!    the fields that differ; a reader through `map` / `invert` counts as a reader of the Option field itself;
+//!    readers of a key that has never been in the collection are not judged;
 //!  * every run logs the current value of its field (a panic or a stale/absent value fails);
 //!  * immediate readers of proper ancestors of the written field run before those of its proper descendants.
 use hx_common::*;
@@ -38,7 +45,8 @@ use reactive_graph::{
     traits::*,
 };
 use reactive_stores::{
-    AtKeyed, KeyedSubfield, OptionStoreExt, Patch, PatchField, Store, StoreField, StoreFieldIterator,
+    ArcField, AtKeyed, DerefField, Field, KeyedSubfield, OptionStoreExt, Patch, PatchField, Store, StoreField,
+    StoreFieldIterator,
 };
 use std::ops::Deref;
 use std::panic::{catch_unwind, AssertUnwindSafe};
@@ -333,9 +341,26 @@ enum How {
     Upd,
     Wr,
 }
+/// every public way of reading a field
+#[derive(Clone, Copy, PartialEq, Debug)]
+enum RHow {
+    Get,          // `.try_get()`
+    Read,         // `.try_read()`
+    With,         // `.try_with(..)`
+    Track,        // `.track()` + `.try_read_untracked()`
+    Map,          // `OptionStoreExt::map` on the Option field on the way, `.get()` inside
+    Invert,       // `OptionStoreExt::invert`, then `.get()`
+    Iter,         // `for item in keyed_field` / `.iter_unkeyed()`, every item `.get()`
+    Field(usize), // the accessor after k steps converted to `Field` when the reader is created
+    Arc(usize),   // … to `ArcField`
+}
+/// a reader: `f(true)` tracks and reads, `f(false)` only tracks (the field is absent: `None.unwrap()`, index ≥ len)
+type RFn = Box<dyn Fn(bool) -> String + Send + Sync>;
+/// erase the accessor reached after this many more steps; `true`: `ArcField`, `false`: `Field`
+type Er = Option<(usize, bool)>;
+
 enum Do<'a> {
-    Read,
-    ReadIter,
+    Reader(RHow),
     Write(&'a V, How),
     Patch(&'a V),
     KPush(&'a V),
@@ -343,32 +368,92 @@ enum Do<'a> {
     KSwap(usize, usize),
     KRev,
 }
-#[derive(Debug, PartialEq)]
 enum Out {
-    Seen(String),
+    Reader(RFn),
     Wrote(&'static str),
     Bad,
 }
 
 trait Node<T>:
-    StoreField<Value = T> + Track + Write<Value = T> + IsDisposed + Clone + Send + Sync + 'static
+    StoreField<Value = T>
+    + Track
+    + ReadUntracked<Value: Deref<Target = T>>
+    + Write<Value = T>
+    + IsDisposed
+    + Clone
+    + Send
+    + Sync
+    + 'static
 {
 }
 impl<T, F> Node<T> for F where
-    F: StoreField<Value = T> + Track + Write<Value = T> + IsDisposed + Clone + Send + Sync + 'static
+    F: StoreField<Value = T>
+        + Track
+        + ReadUntracked<Value: Deref<Target = T>>
+        + Write<Value = T>
+        + IsDisposed
+        + Clone
+        + Send
+        + Sync
+        + 'static
 {
 }
 
-/// the accessor at the end of a chain
-fn end<T: Conv + PatchField + 'static, F: Node<T>>(f: F, op: &Do) -> Out {
-    match op {
-        Do::Read => {
-            // what `Read::try_read` does: track, then the untracked reader
-            f.track();
-            match f.reader() {
-                Some(r) => Out::Seen(show(&r.deref().to_v())),
-                None => Out::Seen("none".into()),
+/// one more accessor step; converts the new accessor to `Field` / `ArcField` if this is the erased position
+macro_rules! go {
+    ($acc:expr, $er:expr, $x:ident, $er2:ident => $cont:expr) => {
+        match $er {
+            Some((1, false)) => {
+                let $x: Field<_> = $acc.into();
+                let $er2: Er = None;
+                $cont
             }
+            Some((1, true)) => {
+                let $x: ArcField<_> = $acc.into();
+                let $er2: Er = None;
+                $cont
+            }
+            other => {
+                let $x = $acc;
+                let $er2: Er = other.map(|(n, a): (usize, bool)| (n.saturating_sub(1), a));
+                $cont
+            }
+        }
+    };
+}
+
+fn id_v(v: V) -> V {
+    v
+}
+/// what a reader sees behind `DerefedField` is the pointee; the store's own value there is the `Box`
+fn as_atom(v: V) -> V {
+    match v {
+        V::Node(_, xs) => V::Node(Tag::Atom, xs),
+        v => v,
+    }
+}
+
+/// the accessor at the end of a chain
+fn end<T: Conv + PatchField + Clone + 'static, F: Node<T>>(f: F, op: &Do, post: fn(V) -> V) -> Out {
+    match op {
+        Do::Reader(how) => {
+            let how = *how;
+            Out::Reader(Box::new(move |read| {
+                if !read {
+                    f.track();
+                    return "absent".into();
+                }
+                let seen: Option<String> = match how {
+                    RHow::Read => f.try_read().map(|g| show(&post(g.deref().to_v()))),
+                    RHow::With => f.try_with(|v| show(&post(v.to_v()))),
+                    RHow::Track => {
+                        f.track();
+                        f.try_read_untracked().map(|g| show(&post(g.deref().to_v())))
+                    }
+                    _ => f.try_get().map(|v| show(&post(v.to_v()))),
+                };
+                seen.unwrap_or_else(|| "none".into())
+            }))
         }
         Do::Write(v, how) => {
             let Some(nv) = T::from_v(v) else { return Out::Bad };
@@ -400,40 +485,93 @@ fn end<T: Conv + PatchField + 'static, F: Node<T>>(f: F, op: &Do) -> Out {
     }
 }
 
-fn nav_leafst<F: Node<Leaf>>(f: F, ch: &[Acc], op: &Do) -> Out {
+fn call_reader(o: Out) -> String {
+    match o {
+        Out::Reader(f) => f(true),
+        _ => "bad".into(),
+    }
+}
+
+fn nav_leafst<F: Node<Leaf>>(f: F, ch: &[Acc], op: &Do, er: Er, post: fn(V) -> V) -> Out {
     match ch {
-        [] => end(f, op),
-        [Acc::Fld(0)] => end(f.v(), op),
-        [Acc::Fld(1)] => end(f.w(), op),
+        [] => end(f, op, post),
+        [Acc::Fld(0)] => go!(f.v(), er, x, _e => end(x, op, id_v)),
+        [Acc::Fld(1)] => go!(f.w(), er, x, _e => end(x, op, id_v)),
         _ => Out::Bad,
     }
 }
 
-fn nav_row<F: Node<Row>>(f: F, ch: &[Acc], op: &Do) -> Out {
-    match ch {
-        [] => end(f, op),
-        [Acc::Fld(0)] => end(f.id(), op),
-        [Acc::Fld(1)] => end(f.label(), op),
-        [Acc::Fld(2), rest @ ..] => nav_leafst(f.sub(), rest, op),
+fn nav_opt<F>(o: F, ch: &[Acc], op: &Do, er: Er) -> Out
+where
+    F: Node<Option<Leaf>>,
+{
+    match (ch, op) {
+        ([], _) => end(o, op, id_v),
+        ([Acc::Fld(0), rest @ ..], Do::Reader(how @ (RHow::Map | RHow::Invert))) => {
+            let rest = rest.to_vec();
+            let how = *how;
+            Out::Reader(Box::new(move |_read| {
+                let inside = |inner| call_reader(nav_leafst(inner, &rest, &Do::Reader(RHow::Get), None, id_v));
+                let r = if how == RHow::Map {
+                    o.clone().map(inside)
+                } else {
+                    o.clone().invert().map(inside)
+                };
+                r.unwrap_or_else(|| "absent".into())
+            }))
+        }
+        ([Acc::Fld(0), rest @ ..], _) => go!(o.unwrap(), er, x, e2 => nav_leafst(x, rest, op, e2, id_v)),
         _ => Out::Bad,
     }
 }
 
-fn nav_rows<Inner, Prev>(f: KeyedSubfield<Inner, Prev, u32, Vec<Row>>, ch: &[Acc], op: &Do) -> Out
+fn nav_list<F: Node<Vec<Leaf>>>(l: F, ch: &[Acc], op: &Do, er: Er) -> Out {
+    match (ch, op) {
+        ([], Do::Reader(RHow::Iter)) => Out::Reader(Box::new(move |_read| {
+            let mut out: Vec<Leaf> = vec![];
+            for item in l.clone().iter_unkeyed() {
+                match item.try_get() {
+                    Some(v) => out.push(v),
+                    None => return "none".into(),
+                }
+            }
+            show(&out.to_v())
+        })),
+        ([], _) => end(l, op, id_v),
+        ([Acc::Idx(i), rest @ ..], _) => go!(l.at_unkeyed(*i), er, x, e2 => nav_leafst(x, rest, op, e2, id_v)),
+        _ => Out::Bad,
+    }
+}
+
+fn nav_row<F: Node<Row>>(f: F, ch: &[Acc], op: &Do, er: Er) -> Out {
+    match ch {
+        [] => end(f, op, id_v),
+        [Acc::Fld(0)] => go!(f.id(), er, x, _e => end(x, op, id_v)),
+        [Acc::Fld(1)] => go!(f.label(), er, x, _e => end(x, op, id_v)),
+        [Acc::Fld(2), rest @ ..] => go!(f.sub(), er, x, e2 => nav_leafst(x, rest, op, e2, id_v)),
+        _ => Out::Bad,
+    }
+}
+
+fn nav_rows<Inner, Prev>(f: KeyedSubfield<Inner, Prev, u32, Vec<Row>>, ch: &[Acc], op: &Do, er: Er) -> Out
 where
     Inner: StoreField<Value = Prev> + Track + IsDisposed + Clone + Send + Sync + 'static,
     Prev: 'static,
 {
     match ch {
         [] => match op {
-            Do::ReadIter => {
-                // the idiomatic reader: iterating the keyed field (update_keys + track_field)
-                for _item in f.clone() {}
-                match f.reader() {
-                    Some(r) => Out::Seen(show(&r.deref().to_v())),
-                    None => Out::Seen("none".into()),
+            Do::Reader(RHow::Iter) => Out::Reader(Box::new(move |_read| {
+                // the idiomatic reader: iterating the keyed field (update_keys + track_field),
+                // every item read through its AtKeyed
+                let mut out: Vec<Row> = vec![];
+                for item in f.clone() {
+                    match item.try_get() {
+                        Some(v) => out.push(v),
+                        None => return "none".into(),
+                    }
                 }
-            }
+                show(&out.to_v())
+            })),
             Do::KPush(v) => {
                 let Some(row) = Row::from_v(v) else { return Out::Bad };
                 f.write().push(row);
@@ -451,88 +589,56 @@ where
                 f.write().reverse();
                 Out::Wrote("done")
             }
-            _ => end(f, op),
+            _ => end(f, op, id_v),
         },
-        [Acc::Key(k), rest @ ..] => nav_row(AtKeyed::new(f, *k), rest, op),
+        [Acc::Key(k), rest @ ..] => go!(AtKeyed::new(f, *k), er, x, e2 => nav_row(x, rest, op, e2)),
+        _ => Out::Bad,
+    }
+}
+
+fn nav_mid<F: Node<Mid>>(m: F, ch: &[Acc], op: &Do, er: Er) -> Out {
+    match ch {
+        [] => end(m, op, id_v),
+        [Acc::Fld(0)] => go!(m.x(), er, x, _e => end(x, op, id_v)),
+        [Acc::Fld(1), rest @ ..] => go!(m.inner(), er, x, e2 => nav_leafst(x, rest, op, e2, id_v)),
+        [Acc::KFld(2), rest @ ..] => nav_rows(m.rows(), rest, op, er.map(|(n, a)| (n.saturating_sub(1), a))),
+        [Acc::Fld(3), rest @ ..] => go!(m.opt(), er, x, e2 => nav_opt(x, rest, op, e2)),
+        _ => Out::Bad,
+    }
+}
+
+fn nav_rootf<F: Node<Root>>(s: F, ch: &[Acc], op: &Do, er: Er) -> Out {
+    match ch {
+        [] => end(s, op, id_v),
+        [Acc::Fld(0)] => go!(s.a(), er, x, _e => end(x, op, id_v)),
+        [Acc::Fld(1), rest @ ..] => go!(s.mid(), er, x, e2 => nav_mid(x, rest, op, e2)),
+        [Acc::Fld(2), rest @ ..] => go!(s.opt(), er, x, e2 => nav_opt(x, rest, op, e2)),
+        [Acc::Fld(3), rest @ ..] => go!(s.list(), er, x, e2 => nav_list(x, rest, op, e2)),
+        [Acc::KFld(4), rest @ ..] => nav_rows(s.rows(), rest, op, er.map(|(n, a)| (n.saturating_sub(1), a))),
+        // `boxed: Box<Leaf>` is always used through its `DerefedField`
+        [Acc::Fld(5), rest @ ..] => {
+            go!(s.boxed().deref_field(), er, x, e2 => nav_leafst(x, rest, op, e2, if rest.is_empty() { as_atom } else { id_v }))
+        }
         _ => Out::Bad,
     }
 }
 
 fn nav_root(s: Store<Root>, ch: &[Acc], op: &Do) -> Out {
-    match ch {
-        [] => end(s, op),
-        [Acc::Fld(0)] => end(s.a(), op),
-        [Acc::Fld(1), rest @ ..] => {
-            let m = s.mid();
-            match rest {
-                [] => end(m, op),
-                [Acc::Fld(0)] => end(m.x(), op),
-                [Acc::Fld(1), r2 @ ..] => nav_leafst(m.inner(), r2, op),
-                [Acc::KFld(2), r2 @ ..] => nav_rows(m.rows(), r2, op),
-                _ => Out::Bad,
-            }
-        }
-        [Acc::Fld(2), rest @ ..] => {
-            let o = s.opt();
-            match rest {
-                [] => end(o, op),
-                [Acc::Fld(0), r2 @ ..] => nav_leafst(o.unwrap(), r2, op),
-                _ => Out::Bad,
-            }
-        }
-        [Acc::Fld(3), rest @ ..] => {
-            let l = s.list();
-            match rest {
-                [] => end(l, op),
-                [Acc::Idx(i), r2 @ ..] => nav_leafst(l.at_unkeyed(*i), r2, op),
-                _ => Out::Bad,
-            }
-        }
-        [Acc::KFld(4), rest @ ..] => nav_rows(s.rows(), rest, op),
-        _ => Out::Bad,
+    let er: Er = match op {
+        Do::Reader(RHow::Field(k)) => Some((*k, false)),
+        Do::Reader(RHow::Arc(k)) => Some((*k, true)),
+        _ => None,
+    };
+    match er {
+        Some((0, false)) => nav_rootf(Field::<Root>::from(s), ch, op, None),
+        Some((0, true)) => nav_rootf(ArcField::<Root>::from(s), ch, op, None),
+        _ => nav_rootf(s, ch, op, er),
     }
 }
 
 /// does the chain name a field of the family at all?
 fn chain_ok(ch: &[Acc]) -> bool {
-    fn leafst(c: &[Acc]) -> bool {
-        matches!(c, [] | [Acc::Fld(0)] | [Acc::Fld(1)])
-    }
-    fn row(c: &[Acc]) -> bool {
-        match c {
-            [] | [Acc::Fld(0)] | [Acc::Fld(1)] => true,
-            [Acc::Fld(2), r @ ..] => leafst(r),
-            _ => false,
-        }
-    }
-    fn rows(c: &[Acc]) -> bool {
-        match c {
-            [] => true,
-            [Acc::Key(_), r @ ..] => row(r),
-            _ => false,
-        }
-    }
-    match ch {
-        [] | [Acc::Fld(0)] => true,
-        [Acc::Fld(1), r @ ..] => match r {
-            [] | [Acc::Fld(0)] => true,
-            [Acc::Fld(1), r2 @ ..] => leafst(r2),
-            [Acc::KFld(2), r2 @ ..] => rows(r2),
-            _ => false,
-        },
-        [Acc::Fld(2), r @ ..] => match r {
-            [] => true,
-            [Acc::Fld(0), r2 @ ..] => leafst(r2),
-            _ => false,
-        },
-        [Acc::Fld(3), r @ ..] => match r {
-            [] => true,
-            [Acc::Idx(_), r2 @ ..] => leafst(r2),
-            _ => false,
-        },
-        [Acc::KFld(4), r @ ..] => rows(r),
-        _ => false,
-    }
+    ty_of(ch).is_some()
 }
 
 fn ends_keyed(ch: &[Acc]) -> bool {
@@ -591,6 +697,10 @@ fn guard_absent(v: &V, ch: &[Acc]) -> bool {
     }
     false
 }
+/// the `Option` field that the chain unwraps first (its prefix length), if any
+fn opt_prefix(ch: &[Acc]) -> Option<usize> {
+    (0..ch.len()).find(|n| ty_of(&ch[..*n]) == Some(Ty::Opt))
+}
 fn norm(ch: &[Acc]) -> Vec<Acc> {
     ch.iter().map(|a| if let Acc::KFld(i) = a { Acc::Fld(*i) } else { *a }).collect()
 }
@@ -606,6 +716,12 @@ fn diff(old: &V, new: &V, at: &Chain, out: &mut Vec<Chain>) {
     match (old, new) {
         (V::Leaf(a), V::Leaf(b)) => {
             if a != b {
+                out.push(at.clone())
+            }
+        }
+        // a field its parent patches as a whole
+        (V::Node(Tag::Atom, xs), V::Node(_, ys)) => {
+            if xs != ys {
                 out.push(at.clone())
             }
         }
@@ -642,6 +758,9 @@ fn diff(old: &V, new: &V, at: &Chain, out: &mut Vec<Chain>) {
 
 struct Reader {
     chain: Chain,
+    /// the field the reader reads for the purpose of "is this write related to it": through
+    /// `OptionStoreExt::map` / `invert` that is the `Option` field itself (is it `Some`?)
+    rel: Chain,
     imm: bool,
 }
 struct Case {
@@ -679,32 +798,17 @@ fn fmt_log(l: &[(usize, String)]) -> String {
     }
 }
 
-fn reader_body(store: Store<Root>, chain: &Chain, iter: bool) -> String {
-    let snap = store.read_untracked().to_v();
-    if guard_absent(&snap, chain) {
-        // still track the field (tracking never touches the value), but do not read through a
-        // `None.unwrap()` / an index past the end
-        let _ = nav_track_only(store, chain);
-        return "absent".into();
+fn reader_body(store: Store<Root>, chain: &Chain, how: RHow, f: &RFn) -> String {
+    let guarded = !matches!(how, RHow::Map | RHow::Invert | RHow::Iter);
+    if guarded {
+        let snap = store.read_untracked().to_v();
+        if guard_absent(&snap, chain) {
+            // still track the field (tracking never touches the value), but do not read through a
+            // `None.unwrap()` / an index past the end
+            return f(false);
+        }
     }
-    match nav_root(store, chain, if iter { &Do::ReadIter } else { &Do::Read }) {
-        Out::Seen(s) => s,
-        _ => "bad".into(),
-    }
-}
-
-/// `track()` of the accessor without reading
-fn nav_track_only(s: Store<Root>, ch: &[Acc]) -> Option<()> {
-    match ch {
-        [Acc::Fld(2), Acc::Fld(0)] => s.opt().unwrap().track(),
-        [Acc::Fld(2), Acc::Fld(0), Acc::Fld(0)] => s.opt().unwrap().v().track(),
-        [Acc::Fld(2), Acc::Fld(0), Acc::Fld(1)] => s.opt().unwrap().w().track(),
-        [Acc::Fld(3), Acc::Idx(i)] => s.list().at_unkeyed(*i).track(),
-        [Acc::Fld(3), Acc::Idx(i), Acc::Fld(0)] => s.list().at_unkeyed(*i).v().track(),
-        [Acc::Fld(3), Acc::Idx(i), Acc::Fld(1)] => s.list().at_unkeyed(*i).w().track(),
-        _ => return None,
-    }
-    Some(())
+    f(true)
 }
 
 fn dedup(l: &[usize]) -> Vec<usize> {
@@ -736,7 +840,7 @@ fn judge_write(
 ) -> &'static str {
     let snap = snapshot(c);
     let exp: Vec<usize> =
-        (0..c.readers.len()).filter(|e| ws.iter().any(|w| related(w, &c.readers[*e].chain))).collect();
+        (0..c.readers.len()).filter(|e| ws.iter().any(|w| related(w, &c.readers[*e].rel))).collect();
     let ran = dedup(&log.iter().map(|x| x.0).collect::<Vec<_>>());
     if values_bad(c, log) {
         return "fail value";
@@ -755,8 +859,8 @@ fn judge_write(
     }
     // readers of proper ancestors of the written field run before readers of its proper descendants
     for (i, e) in ran.iter().enumerate() {
-        if strict_prefix(wc, &c.readers[*e].chain)
-            && ran[i + 1..].iter().any(|e2| strict_prefix(&c.readers[*e2].chain, wc))
+        if strict_prefix(wc, &c.readers[*e].rel)
+            && ran[i + 1..].iter().any(|e2| strict_prefix(&c.readers[*e2].rel, wc))
         {
             return "fail order";
         }
@@ -795,25 +899,56 @@ fn update_ever(c: &mut Case) {
     }
 }
 
-fn add_reader(c: &mut Case, chain: Chain, iter: bool, imm: bool) {
+fn add_reader(c: &mut Case, chain: Chain, how: RHow, imm: bool) -> bool {
+    // the accessor (and an erased `Field` / `ArcField` handle, if asked for) is built once, here
+    let Out::Reader(f) = nav_root(c.store, &chain, &Do::Reader(how)) else { return false };
     let id = c.readers.len();
-    c.readers.push(Reader { chain: chain.clone(), imm });
+    let rel = match how {
+        RHow::Map | RHow::Invert => chain[..opt_prefix(&chain).unwrap_or(chain.len())].to_vec(),
+        _ => chain.clone(),
+    };
+    c.readers.push(Reader { chain: chain.clone(), rel, imm });
     let store = c.store;
     let log = c.log.clone();
     if imm {
         let e = ImmediateEffect::new(move || {
-            let s = reader_body(store, &chain, iter);
+            let s = reader_body(store, &chain, how, &f);
             log.lock().unwrap().push((id, s));
         });
         c._imms.push(e);
     } else {
         let before = sched::task_count();
         Effect::new(move |_| {
-            let s = reader_body(store, &chain, iter);
+            let s = reader_body(store, &chain, how, &f);
             log.lock().unwrap().push((id, s));
         });
         assert_eq!(sched::task_count(), before + 1);
         c.task_of.push(id);
+    }
+    true
+}
+
+/// which `how` is allowed on which chain (the driver applies the same rules)
+fn parse_how(s: &str, ch: &[Acc]) -> Option<RHow> {
+    let erased = |k: &str| -> Option<usize> {
+        let k: usize = k.parse().ok()?;
+        let pre = &ch[..k.min(ch.len())];
+        (k <= ch.len()
+            && !ends_keyed(pre)
+            && (!pre.iter().any(|a| matches!(a, Acc::Key(_))) || k == ch.len()))
+        .then_some(k)
+    };
+    match s {
+        "get" => Some(RHow::Get),
+        "read" => Some(RHow::Read),
+        "with" => Some(RHow::With),
+        "track" => Some(RHow::Track),
+        "map" => opt_prefix(ch).map(|_| RHow::Map),
+        "invert" => opt_prefix(ch).map(|_| RHow::Invert),
+        "iter" => (ends_keyed(ch) || ty_of(ch) == Some(Ty::List)).then_some(RHow::Iter),
+        _ if s.starts_with("field") => erased(&s[5..]).map(RHow::Field),
+        _ if s.starts_with("arc") => erased(&s[3..]).map(RHow::Arc),
+        _ => None,
     }
 }
 
@@ -832,8 +967,12 @@ fn do_write(c: &mut Case, chain: &Chain, op: Do, is_patch: bool, newv: Option<&V
     let ws: Vec<Chain> = if wrote == "done" {
         match (is_patch, &old, newv) {
             (true, LSeen::Val(o), Some(n)) => {
+                let untop = |v: &V| match v {
+                    V::Node(Tag::Atom, xs) => V::Node(Tag::Struct, xs.clone()),
+                    v => v.clone(),
+                };
                 let mut out = vec![];
-                diff(o, n, chain, &mut out);
+                diff(&untop(o), &untop(n), chain, &mut out);
                 out
             }
             _ => vec![chain.clone()],
@@ -880,13 +1019,21 @@ fn op_line(case: &mut Option<Case>, w: &[&str]) -> String {
             let v = if values_bad(c, &log) { "fail value" } else { "ok" };
             render(c, "", &log, v)
         }
-        [kind @ ("eff" | "effi" | "imm" | "immi"), ch] => {
-            let Some(ch) = parse_chain(ch) else { return "bad-op".into() };
-            let iter = kind.ends_with('i');
-            if !chain_ok(&ch) || (iter && !ends_keyed(&ch)) {
+        [kind @ ("eff" | "effi" | "imm" | "immi"), rest @ ..] if rest.len() == 1 || rest.len() == 2 => {
+            let Some(ch) = parse_chain(rest[0]) else { return "bad-op".into() };
+            if !chain_ok(&ch) {
                 return "bad-op".into();
             }
-            add_reader(c, ch, iter, kind.starts_with("imm"));
+            let how_s = match (kind.ends_with('i'), rest.get(1)) {
+                (true, None) => "iter",
+                (false, None) => "get",
+                (false, Some(h)) => *h,
+                (true, Some(_)) => return "bad-op".into(),
+            };
+            let Some(how) = parse_how(how_s, &ch) else { return "bad-op".into() };
+            if !add_reader(c, ch, how, kind.starts_with("imm")) {
+                return "bad-op".into();
+            }
             update_ever(c);
             let log = take_log(c);
             let v = if values_bad(c, &log) { "fail value" } else { "ok" };
@@ -961,6 +1108,7 @@ enum Ty {
     Opt,
     List,
     Rows,
+    Boxed,
 }
 fn ty_child(t: Ty, a: &Acc) -> Option<Ty> {
     Some(match (t, a) {
@@ -969,6 +1117,9 @@ fn ty_child(t: Ty, a: &Acc) -> Option<Ty> {
         (Ty::Root, Acc::Fld(2)) => Ty::Opt,
         (Ty::Root, Acc::Fld(3)) => Ty::List,
         (Ty::Root, Acc::KFld(4)) => Ty::Rows,
+        (Ty::Root, Acc::Fld(5)) => Ty::Boxed,
+        (Ty::Boxed, Acc::Fld(0)) | (Ty::Boxed, Acc::Fld(1)) => Ty::U,
+        (Ty::Mid, Acc::Fld(3)) => Ty::Opt,
         (Ty::Mid, Acc::Fld(0)) => Ty::U,
         (Ty::Mid, Acc::Fld(1)) => Ty::Leaf,
         (Ty::Mid, Acc::KFld(2)) => Ty::Rows,
@@ -1057,7 +1208,12 @@ fn mutate(t: Ty, v: &V, r: &mut Rng) -> V {
                 if r.chance(1, 2) { mutate(Ty::U, &xs[0], r) } else { xs[0].clone() },
                 if r.chance(1, 2) { mutate(Ty::Leaf, &xs[1], r) } else { xs[1].clone() },
                 if r.chance(1, 2) { mutate(Ty::Rows, &xs[2], r) } else { xs[2].clone() },
+                if r.chance(1, 2) { mutate(Ty::Opt, &xs[3], r) } else { xs[3].clone() },
             ],
+        ),
+        (Ty::Boxed, V::Node(_, xs)) => V::Node(
+            Tag::Atom,
+            xs.iter().map(|x| if r.chance(1, 2) { mutate(Ty::U, x, r) } else { x.clone() }).collect(),
         ),
         (Ty::Root, V::Node(_, xs)) => V::Node(
             Tag::Struct,
@@ -1067,6 +1223,7 @@ fn mutate(t: Ty, v: &V, r: &mut Rng) -> V {
                 if r.chance(1, 2) { mutate(Ty::Opt, &xs[2], r) } else { xs[2].clone() },
                 if r.chance(1, 2) { mutate(Ty::List, &xs[3], r) } else { xs[3].clone() },
                 if r.chance(1, 2) { mutate(Ty::Rows, &xs[4], r) } else { xs[4].clone() },
+                if r.chance(1, 2) { mutate(Ty::Boxed, &xs[5], r) } else { xs[5].clone() },
             ],
         ),
         _ => v.clone(),
@@ -1116,6 +1273,13 @@ fn all_chains(keys_root: &[u32], keys_mid: &[u32], list_len: usize) -> Vec<Chain
         vec![Fld(2), Fld(0), Fld(0)],
         vec![Fld(2), Fld(0), Fld(1)],
         vec![Fld(3)],
+        vec![Fld(1), Fld(3)],
+        vec![Fld(1), Fld(3), Fld(0)],
+        vec![Fld(1), Fld(3), Fld(0), Fld(0)],
+        vec![Fld(1), Fld(3), Fld(0), Fld(1)],
+        vec![Fld(5)],
+        vec![Fld(5), Fld(0)],
+        vec![Fld(5), Fld(1)],
     ];
     for i in 0..list_len {
         out.push(vec![Fld(3), Idx(i)]);
@@ -1162,12 +1326,53 @@ fn init_root(r: &mut Rng, keys_root: &[u32], keys_mid: &[u32], list_len: usize, 
         Tag::Struct,
         vec![
             g_leaf(r),
-            V::Node(Tag::Struct, vec![g_leaf(r), g_leafst(r), g_rows(r, keys_mid)]),
+            V::Node(
+                Tag::Struct,
+                vec![
+                    g_leaf(r),
+                    g_leafst(r),
+                    g_rows(r, keys_mid),
+                    V::Node(Tag::Opt, if opt { vec![g_leafst(r)] } else { vec![] }),
+                ],
+            ),
             V::Node(Tag::Opt, if opt { vec![g_leafst(r)] } else { vec![] }),
             V::Node(Tag::Vec, (0..list_len).map(|_| g_leafst(r)).collect()),
             g_rows(r, keys_root),
+            V::Node(Tag::Atom, vec![g_leaf(r), g_leaf(r)]),
         ],
     )
+}
+
+/// a way of reading the field at `ch` (`""` = plain `.get()`), and a tag for it
+fn pick_how(r: &mut Rng, ch: &[Acc]) -> (String, &'static str) {
+    if r.chance(2, 5) {
+        return (String::new(), "how-get");
+    }
+    let mut c: Vec<(String, &'static str)> = vec![
+        ("read".into(), "how-read-with-track"),
+        ("with".into(), "how-read-with-track"),
+        ("track".into(), "how-read-with-track"),
+    ];
+    if opt_prefix(ch).is_some() {
+        for _ in 0..3 {
+            c.push(("map".into(), "how-option-map"));
+            c.push(("invert".into(), "how-option-map"));
+        }
+    }
+    if ends_keyed(ch) || ty_of(ch) == Some(Ty::List) {
+        for _ in 0..3 {
+            c.push(("iter".into(), "how-iter"));
+        }
+    }
+    for k in 0..=ch.len() {
+        for pre in ["field", "arc"] {
+            let h = format!("{pre}{k}");
+            if parse_how(&h, ch).is_some() {
+                c.push((h, "how-erased"));
+            }
+        }
+    }
+    r.pick(&c).clone()
 }
 
 /// one (write chain, read chain) pair on the standard store
@@ -1176,7 +1381,9 @@ fn gen_pair(r: &mut Rng, w: &Chain, rd: &Chain) -> GenCase {
     let root = init_root(r, &[10, 11, 12], &[20, 21], 2, true);
     g.lines.push(format!("init {}", show(&root)));
     let imm = r.chance(1, 4);
-    g.lines.push(format!("{} {}", if imm { "imm" } else { "eff" }, show_chain(rd)));
+    let (how, htag) = pick_how(r, rd);
+    g.lines.push(format!("{} {} {}", if imm { "imm" } else { "eff" }, show_chain(rd), how).trim_end().to_string());
+    g.tag(htag);
     if imm {
         g.tag("imm")
     }
@@ -1239,20 +1446,13 @@ fn gen_history(r: &mut Rng, flavour: usize) -> GenCase {
     let cands: Vec<Chain> = all_chains(&pool_keys_root, &pool_keys_mid, 3).into_iter().filter(|c| allow(c)).collect();
     for _ in 0..n_readers {
         let ch = r.pick(&cands).clone();
-        let iter = ends_keyed(&ch) && r.chance(1, 2);
-        let kind = match (use_imm && r.chance(2, 3), iter) {
-            (true, true) => "immi",
-            (true, false) => "imm",
-            (false, true) => "effi",
-            (false, false) => "eff",
-        };
-        if kind.starts_with("imm") {
+        let kind = if use_imm && r.chance(2, 3) { "imm" } else { "eff" };
+        if kind == "imm" {
             g.tag("imm")
         }
-        if iter {
-            g.tag("iter-reader")
-        }
-        g.lines.push(format!("{kind} {}", show_chain(&ch)));
+        let (how, htag) = pick_how(r, &ch);
+        g.tag(htag);
+        g.lines.push(format!("{kind} {} {how}", show_chain(&ch)).trim_end().to_string());
     }
     if r.chance(3, 4) {
         g.lines.push("idle".into());
@@ -1418,6 +1618,112 @@ fn gen_history(r: &mut Rng, flavour: usize) -> GenCase {
     });
     g
 }
+/// both `Option` fields go Some -> None -> Some (and back) through writes and patches at every ancestor
+/// level, watched by every kind of reader
+fn gen_option_cycle(r: &mut Rng) -> GenCase {
+    use Acc::*;
+    let mut g = GenCase { lines: vec![], tags: vec!["option-cycle"] };
+    let start_some = r.chance(1, 2);
+    let mut shadow = init_root(r, &[], &[], 0, start_some);
+    g.lines.push(format!("init {}", show(&shadow)));
+    let use_imm = r.chance(1, 5);
+    let opts: [Chain; 2] = [vec![Fld(2)], vec![Fld(1), Fld(3)]];
+    let hows = ["", "read", "with", "track", "map", "invert", "field", "arc"];
+    let n_readers = r.range(3, 8);
+    for _ in 0..n_readers {
+        let base = r.pick(&opts).clone();
+        let mut ch = base.clone();
+        match r.below(4) {
+            0 => {}
+            1 => ch.push(Fld(0)),
+            _ => {
+                ch.push(Fld(0));
+                ch.push(Fld(r.below(2)));
+            }
+        }
+        let mut how = r.pick(&hows).to_string();
+        if how == "field" || how == "arc" {
+            how = format!("{how}{}", r.below(ch.len() + 1));
+        }
+        if parse_how(if how.is_empty() { "get" } else { &how }, &ch).is_none() {
+            how = String::new();
+        }
+        if how == "map" || how == "invert" {
+            g.tag("how-option-map")
+        } else if how.starts_with("field") || how.starts_with("arc") {
+            g.tag("how-erased")
+        }
+        let kind = if use_imm && r.chance(1, 2) { "imm" } else { "eff" };
+        if kind == "imm" {
+            g.tag("imm")
+        }
+        g.lines.push(format!("{kind} {} {how}", show_chain(&ch)).trim_end().to_string());
+    }
+    if r.chance(3, 4) {
+        g.lines.push("idle".into());
+    }
+    for _ in 0..r.range(3, 10) {
+        let base = r.pick(&opts).clone();
+        // an ancestor level of the option (or the option itself)
+        let level = r.below(base.len() + 1);
+        let at: Chain = base[..level].to_vec();
+        let cur_opt = lget(&shadow, &base).unwrap().clone();
+        let is_some = matches!(&cur_opt, V::Node(_, xs) if !xs.is_empty());
+        // mostly toggle, sometimes change the inner value, sometimes leave it
+        let new_opt = match r.below(6) {
+            0 if is_some => V::Node(Tag::Opt, vec![mutate(Ty::Leaf, lget(&cur_opt, &[Fld(0)]).unwrap(), r)]),
+            1 => cur_opt.clone(),
+            _ => {
+                if is_some {
+                    V::Node(Tag::Opt, vec![])
+                } else {
+                    V::Node(Tag::Opt, vec![g_leafst(r)])
+                }
+            }
+        };
+        let mut nv = lget(&shadow, &at).unwrap().clone();
+        // sometimes the rest of the written value changes as well
+        if level < base.len() && r.chance(1, 3) {
+            nv = mutate(ty_of(&at).unwrap(), &nv, r);
+        }
+        lset(&mut nv, &base[level..], new_opt);
+        let patch = !use_imm && r.chance(1, 2);
+        if patch {
+            g.lines.push(format!("patch {} {}", show_chain(&at), show(&nv)));
+            g.tag("patch");
+        } else {
+            let how = *r.pick(&["set", "upd", "wr"]);
+            g.lines.push(format!("{how} {} {}", show_chain(&at), show(&nv)));
+        }
+        g.tag(match base.len() - level {
+            0 => "option-written-itself",
+            1 => "option-written-via-parent",
+            _ => "option-written-via-grandparent",
+        });
+        lset(&mut shadow, &at, nv);
+        // a write below the option while it is Some
+        if r.chance(1, 4) {
+            if let Some(inner) = lget(&shadow, &[&base[..], &[Fld(0)]].concat()).cloned() {
+                let f = r.below(2);
+                let leaf = g_leaf(r);
+                let mut ch = base.clone();
+                ch.push(Fld(0));
+                ch.push(Fld(f));
+                g.lines.push(format!("set {} {}", show_chain(&ch), show(&leaf)));
+                let mut ni = inner;
+                lset(&mut ni, &[Fld(f)], leaf);
+                lset(&mut shadow, &[&base[..], &[Fld(0)]].concat(), ni);
+            }
+        }
+        match r.below(4) {
+            0 | 1 | 2 => g.lines.push("idle".into()),
+            _ => g.lines.push(format!("poll {}", r.below(8))),
+        }
+    }
+    g.lines.push("idle".into());
+    g
+}
+
 fn ch_has_idx(ch: &[Acc]) -> bool {
     ch.iter().any(|a| matches!(a, Acc::Idx(_)))
 }
@@ -1461,14 +1767,15 @@ fn gen(seed: u64, n: usize, path: &str, _tier: &str) -> std::io::Result<()> {
         }
     }
     while i < n {
-        let flavour = match r.below(10) {
+        let flavour = match r.below(12) {
             0..=2 => 0,
             3 | 4 => 1,
             5 | 6 => 2,
             7 => 3,
-            _ => 4,
+            8 | 9 => 4,
+            _ => 5,
         };
-        let g = gen_history(&mut r, flavour);
+        let g = if flavour == 5 { gen_option_cycle(&mut r) } else { gen_history(&mut r, flavour) };
         emit(&mut f, g, i)?;
         i += 1;
     }
